@@ -114,11 +114,15 @@ def run(tier):
     progs += slots
     progs += fam.stdlib_modules(25 if tier == "quick" else 200, 25000 if tier == "quick" else 80000)
     table = []  # (desc, cfg, returned, wellformed, status, detail)
+    refused = list(fam.compile_refused())
+    progs += refused
+    refused_ids = {d for d, _ in refused}
     for desc, src in progs:
-        try:
-            compile(src, "<s>", "exec")
-        except SyntaxError:
-            continue
+        if desc not in refused_ids:
+            try:
+                compile(src, "<s>", "exec")
+            except SyntaxError:
+                continue
         for cfg, status, detail in check_program(ol, desc, src):
             table.append((desc, cfg, status != "rejected", status in ("ok", "rejected"), status, detail, src))
     t_tab = time.time() - t0
@@ -152,6 +156,7 @@ def run(tier):
         "statement over the table (W_wellformed). The line-break obligation for arbitrary string contents under the custom unparser is discharged by the C04 kernels (all code points)." % nprog
     )
     cov["programs"] = nprog
+    cov["parse_ok_compile_refused_programs"] = len(refused)
     cov["slot_product"] = {"expression_slots": len(fam.EXPR_SLOTS), "expression_fillers": len(fam.EXPR_FILLERS), "index_slots": len(fam.INDEX_SLOTS), "index_fillers": len(fam.INDEX_FILLERS), "placements": list(fam.SLOT_PLACEMENTS), "programs_in_this_run": sum(1 for d, *_ in table if d.startswith(("C02:slot:", "C02:index:"))) // 8}
     cov["evaluations"] = len(table)
     cov["distinct_nontrivial"] = sum(1 for t in table if t[2])
